@@ -13,6 +13,9 @@ use serde_json::json;
 pub fn gens() -> Vec<Gen> {
     vec![
         Gen { name: "c05.special", prop: "C05", tags: &["path", "next_level", "sd_for_key", "prefix", "iss", "exp", "strategy", "src/issuer.rs"], cases: cases_special, check },
+        // one issuer instance, 1-3 issuances in mixed formats: every credential must be exactly what
+        // the strategy designates for ITS claims (every issued disclosure referenced by exactly one digest)
+        Gen { name: "c05.issuer_sequence", prop: "C05", tags: &["sequence", "reset", "all_disclosures", "create_combined", "referenced"], cases: crate::gen_c11::cases_issuer, check: crate::gen_c11::check_issuer },
         Gen { name: "c05.catalog", prop: "C05", tags: &["catalog", "provenance", "decoy"], cases: cases_catalog, check },
         Gen { name: "c05.enum", prop: "C05", tags: &["enum"], cases: cases_enum, check },
     ]
